@@ -7,4 +7,5 @@ INVARIANT MinimalIffFixpoint
 INVARIANT NonMinimalHasShorter
 INVARIANT RangeOK
 INVARIANT CastToBoolDef
+INVARIANT FixedWidthAgrees
 CHECK_DEADLOCK FALSE
